@@ -36,7 +36,7 @@ B = 4
 
 def strategy(ctx):
     rng = ctx.rng("c13-pool")
-    size = 2 if ctx.tier == "quick" else 16
+    size = 2 if ctx.tier == "quick" else 6
     pool_fixed = [ssmcase.draw_structure(rng, strategies=("fixedinterval",), nmax=5, steps=(2, 8), calibs=("none", "mle", "dynamic")) for _ in range(size)]
     pool_fp = []
     for _ in range(size):
